@@ -315,6 +315,76 @@ func runC20(c *Ctx) error {
 		c.Sample(map[string]any{"cfg": label, "linked": linked, "goroutines_running": running, "goroutines_after": after, "baseline": base})
 	}
 
+	// ---------- a router restarts from the state file of a run in which it learned nothing ----------
+	// Cycle 1: the router runs alone with a state file and is stopped (the file holds no router).
+	// Cycle 2: constructed again from the same file, it peers with a second router like any other.
+	for rep, n := 0, c.Pick(1, 3); rep < n; rep++ {
+		portA, portB := freePort(), freePort()
+		statePath := filepath.Join(dir, fmt.Sprintf("restart-%d.json", rep))
+		mk := func(id *m.Address, port int, connect []string, sp string) config.Store {
+			return config.Store{Router: config.Router{Address: id.Store(), Listen: []string{fmt.Sprintf("tcp://127.0.0.1:%d", port)}, Connect: connect},
+				System: config.System{DisableTun: true, StatePath: sp}}
+		}
+		rep2 := map[string]any{"cfg": "restart-from-own-state-file"}
+		cfgA1, err := mk(ids[0], portA, nil, statePath).Parse()
+		if err != nil {
+			c.Violate("a valid relay-only configuration does not parse: "+err.Error(), "config-parse", rep2)
+			break
+		}
+		A1, err := mycoria.New("verif", cfgA1)
+		if err != nil {
+			c.Violate("constructing a relay-only router failed: "+err.Error(), "construct", rep2)
+			break
+		}
+		if err := A1.Start(); err != nil {
+			c.Violate("starting a relay-only router failed: "+err.Error(), "start", rep2)
+			break
+		}
+		time.Sleep(200 * time.Millisecond)
+		if !A1.Stop() {
+			c.Violate("stopping a relay-only router that ran alone did not return success", "stop-failed", rep2)
+		}
+		cfgA2, errA := mk(ids[0], portA, nil, statePath).Parse()
+		cfgB, errB := mk(ids[1], portB, []string{fmt.Sprintf("tcp://127.0.0.1:%d", portA)}, "").Parse()
+		if errA != nil || errB != nil {
+			c.Violate(fmt.Sprintf("a valid relay-only configuration does not parse: %v %v", errA, errB), "config-parse", rep2)
+			break
+		}
+		A2, errA := mycoria.New("verif", cfgA2)
+		B, errB := mycoria.New("verif", cfgB)
+		if errA != nil || errB != nil {
+			c.Violate(fmt.Sprintf("constructing a relay-only router from its own state file failed: %v %v", errA, errB), "construct", rep2)
+			break
+		}
+		if err := A2.Start(); err != nil {
+			c.Violate("starting a relay-only router from its own state file failed: "+err.Error(), "start", rep2)
+			break
+		}
+		if err := B.Start(); err != nil {
+			c.Violate("starting a relay-only router failed: "+err.Error(), "start", rep2)
+			A2.Stop()
+			break
+		}
+		linked := false
+		for t := 0; t < 120 && !linked; t++ {
+			time.Sleep(50 * time.Millisecond)
+			linked = A2.Peering().GetLink(ids[1].IP) != nil && B.Peering().GetLink(ids[0].IP) != nil
+		}
+		c.Eval()
+		c.Count("instance-cycle:restart-from-own-state-file")
+		c.NonTrivial("instance/restart-from-own-state-file")
+		if !linked {
+			c.Violate("a relay-only router restarted from the state file of a run in which it learned no router did not peer over loopback within 6 s", "no-peering-after-restart", rep2)
+		}
+		okB, okA := B.Stop(), A2.Stop()
+		if !okA || !okB {
+			c.Violate("stopping a relay-only router did not return success", "stop-failed", rep2)
+		}
+		if after := goroutines(); after > base+2 {
+			c.Violate(fmt.Sprintf("goroutines accumulate over start/stop cycles: %d before the first cycle, %d after a restart from the state file", base, after), "goroutine-leak", rep2)
+		}
+	}
+
 	// ---------- a router is stopped while its only link is still being set up ----------
 	// B reaches A through a slow path (a forwarder of the harness that holds the connection back):
 	// the handshake is still under way when B is stopped and completes while B shuts down.  When
